@@ -1,7 +1,18 @@
 import Girc.Proofs.ProtocolB
+import Girc.Proofs.StsTime
+import Girc.Gen.Skel
+import Girc.Spec.Skeletons
 /- C10 — strict transport security is never downgraded. Property theorems only (decision logic). -/
 namespace Girc.Props.C10
 open Girc Girc.Model Girc.Spec Girc.Proofs.ProtocolB
+
+/-- The decision model (`stsOnAck`, `planDial`, `onDialFail`) stands for this code — the dial/TLS selection and fallback
+    bookkeeping of `newConn`, the policy predicates, the address selection of `Client.server`, and the upgrade loop and
+    expiry re-basing at the end of `internalConnect` — as it is in the tree now (regenerated on every run). -/
+theorem skel_transport : Gen.skel_newConn = Spec.Skel.skel_newConn ∧ Gen.skel_sts_reset = Spec.Skel.skel_sts_reset ∧
+    Gen.skel_sts_expired = Spec.Skel.skel_sts_expired ∧ Gen.skel_sts_enabled = Spec.Skel.skel_sts_enabled ∧
+    Gen.skel_Client_server = Spec.Skel.skel_Client_server ∧ Gen.skel_internalConnect = Spec.Skel.skel_internalConnect := by
+  decide +kernel
 
 /-- Plaintext + usable port: upgrade, nothing further is written, and the next dial is TLS on that port. -/
 theorem upgrade_decision (cfg : Cfg) (sts : Sts) (v : CapVal) (p : Int)
@@ -56,5 +67,180 @@ theorem sts_not_requested_on_ssl (cfg : Cfg) (h : cfg.ssl = true) :
 /-- Non-vacuity: "sts=port=6697" acknowledged on plaintext. -/
 example : usablePort (some [(sPort, [0x36, 0x36, 0x39, 0x37])]) = some 6697 := by decide
 example : usablePort (some [(sPort, [0x31, 0x35])]) = none := by decide
+
+/-! ## The policy lifetime with an explicit clock (`Girc/Model/StsTime.lean`)
+
+Time is in integer nanoseconds; `expiredAt now s` is `strictTransport.expired()` read at clock value `now`
+(`int(time.Since(persistenceReceived).Seconds()) > persistenceDuration`, `time.Since` saturating); `tstep` is what
+handleCAP's STS block (`ackTls`/`ackPlain`), the end of `internalConnect` (`cleanEnd`/`errorEnd`) and a failing
+`newConn` (`dialFail`) do to the stored policy. -/
+
+/-- `tstep` is the untimed decision model with `expired` computed from the clock. -/
+theorem timed_model_consistent (s : TSts) (now : Int) (dfb : Bool) :
+    (tstep s (.dialFail now dfb)).1.toSts = (onDialFail dfb (expiredAt now s) s.toSts).1 ∧
+    (tstep s (.dialFail now dfb)).2.dialError = some (onDialFail dfb (expiredAt now s) s.toSts).2 ∧
+    (tstep s (.cleanEnd now)).1.toSts = (afterCleanEnd s.toSts).1 ∧
+    ((tstep s (.cleanEnd now)).2 = .upgradeRedial ↔ (afterCleanEnd s.toSts).2 = true) ∧
+    (tstep s (.cleanEnd now)).1.received = (if !s.beginUpgrade && s.enabled then now else s.received) ∧
+    tstep s (.errorEnd now) = (s, .nothing) :=
+  ⟨Proofs.StsTime.tstep_dialFail_toSts s now dfb, Proofs.StsTime.tstep_dialFail_error s now dfb,
+   (Proofs.StsTime.tstep_cleanEnd_toSts s now).1, (Proofs.StsTime.tstep_cleanEnd_toSts s now).2,
+   Proofs.StsTime.tstep_cleanEnd_received s now, rfl⟩
+
+/-- …and `ackPlain` / `ackTls` are handleCAP's STS block (`stsOnAck`) on a plaintext / TLS connection. -/
+theorem timed_ack_consistent (cfg : Cfg) (s : TSts) (v : CapVal) (now : Int) :
+    (cfg.tlsActive = false →
+      (stsOnAck cfg s.toSts v).1 = (tstep s (.ackPlain now (usablePort v))).1.toSts ∧
+      ((stsOnAck cfg s.toSts v).2 = .upgrade ↔ (tstep s (.ackPlain now (usablePort v))).2 = .upgradeInit) ∧
+      ((stsOnAck cfg s.toSts v).2 = .abort ↔ (tstep s (.ackPlain now (usablePort v))).2 = .abort)) ∧
+    (cfg.tlsActive = true →
+      let r := stsOnAck cfg s.toSts v
+      let t := tstep s (.ackTls now ((capValGet v sDuration).map fun d => (atoi d).getD 0))
+      r.1.upgradePort = t.1.upgradePort ∧ r.1.persistenceDuration = t.1.persistenceDuration ∧
+      r.1.beginUpgrade = t.1.beginUpgrade ∧ (r.2 = .abort ↔ t.2 = .abort) ∧ (r.2 = .continue_ ↔ t.2 = .nothing)) :=
+  ⟨Proofs.StsTime.tstep_ackPlain_stsOnAck cfg s v now, Proofs.StsTime.tstep_ackTls_stsOnAck cfg s v now⟩
+
+/-- Expiry, arithmetically: with `received ≤ now` (and the difference below the ≈292-year saturation point of
+    `time.Duration`) the policy is expired exactly when the whole seconds elapsed exceed the stored duration. -/
+theorem expired_iff (now : Int) (s : TSts) (h1 : s.received ≤ now) (h2 : now - s.received ≤ maxDuration) :
+    expiredAt now s = true ↔ (now - s.received) / 10^9 > s.persistenceDuration :=
+  Proofs.StsTime.expired_iff now s h1 h2
+
+/-- So it is not expired anywhere in `[received, received + (duration+1) s)`, and (for durations the clock can
+    exceed) expired from then on. A reset policy (duration -1) is expired at every `now ≥ received`. -/
+theorem not_expired_within (now : Int) (s : TSts) (h1 : s.received ≤ now)
+    (h2 : now < s.received + (s.persistenceDuration + 1) * 10^9) : expiredAt now s = false :=
+  Proofs.StsTime.not_expired_within now s h1 h2
+
+theorem expired_from (now : Int) (s : TSts) (hd : s.persistenceDuration < 9223372036)
+    (h2 : s.received + (s.persistenceDuration + 1) * 10^9 ≤ now) (h1 : s.received ≤ now) : expiredAt now s = true :=
+  Proofs.StsTime.expired_from now s hd h2 h1
+
+theorem reset_expired (now : Int) (s : TSts) (hd : s.persistenceDuration = -1) (h1 : s.received ≤ now) :
+    expiredAt now s = true :=
+  Proofs.StsTime.reset_expired now s hd h1
+
+/-- Re-basing: after a clean disconnection at `t` the stored lifetime starts at `t` — whatever `received` was, i.e.
+    however long the connection had lasted — so every failed dial in `[t, t + (duration+1) s)` leaves the policy
+    untouched and returns the upgrade error, with or without `DisableSTSFallback`. -/
+theorem rebase_keeps_policy (s : TSts) (t now : Int) (dfb : Bool) (he : s.enabled = true) (hb : s.beginUpgrade = false)
+    (h1 : t ≤ now) (h2 : now < t + (s.persistenceDuration + 1) * 10^9) :
+    (tstep s (.cleanEnd t)).1 = { s with received := t } ∧
+    tstep (tstep s (.cleanEnd t)).1 (.dialFail now dfb) = ((tstep s (.cleanEnd t)).1, .stsUpgradeFailed) :=
+  Proofs.StsTime.rebase_keeps_policy s t now dfb he hb h1 h2
+
+/-- History level. `lifetimeOk recv dur es` is a predicate on the HISTORY alone: it tracks the lifetime in force from
+    the events (an `ackTls` with a duration sets base and duration, a `cleanEnd` re-bases) and requires every `dialFail`
+    to have `disableFallback` or to fall inside that lifetime (and no plaintext acknowledgement: under an enabled policy
+    every connection is TLS). Along any such history the policy stays enabled on the same port, every dial is planned
+    as TLS on that port, every failed dial returns the upgrade error, and nothing but nothing/abort/upgrade-error
+    ever comes out (no fallback, no plain error, no redial). -/
+theorem never_downgraded (s : TSts) (es : List TEv) (he : s.enabled = true) (hb : s.beginUpgrade = false)
+    (hok : lifetimeOk s.received s.persistenceDuration es = true) :
+    (∀ x ∈ ttrace s es,
+      x.2.1.enabled = true ∧ x.2.1.upgradePort = s.upgradePort ∧
+      (∀ cp ssl, planDial cp ssl x.2.1.toSts = (s.upgradePort, true)) ∧
+      (∀ now fb, x.1 = .dialFail now fb → x.2.2 = .stsUpgradeFailed) ∧
+      (x.2.2 = .nothing ∨ x.2.2 = .abort ∨ x.2.2 = .stsUpgradeFailed)) ∧
+    (trun s es).enabled = true ∧ (trun s es).upgradePort = s.upgradePort :=
+  ⟨Proofs.StsTime.never_downgraded es s he hb hok,
+   (Proofs.StsTime.never_downgraded_final es s he hb hok).1, (Proofs.StsTime.never_downgraded_final es s he hb hok).2.1⟩
+
+/-- The only step that disables an enabled policy is a failed dial at a time when it is expired, with fallback
+    allowed; then `lastFailed` is stamped, the policy is reset, STS_ERR_FALLBACK is the outcome, and the next dial is the
+    configured address with TLS only if `Config.SSL`. -/
+theorem only_expired_fallback_drops (s : TSts) (e : TEv) (he : s.enabled = true)
+    (hdis : (tstep s e).1.enabled = false) :
+    ∃ now, e = .dialFail now false ∧ expiredAt now s = true ∧ (tstep s e).2 = .stsFallback ∧
+      (tstep s e).1.lastFailed = some now ∧ (tstep s e).1.toSts = s.toSts.reset ∧
+      ∀ cp ssl, planDial cp ssl (tstep s e).1.toSts = (cp, ssl) :=
+  Proofs.StsTime.only_expired_fallback_drops s e he hdis
+
+theorem expired_fallback_drops (s : TSts) (now : Int) (he : s.enabled = true) (hx : expiredAt now s = true) :
+    (tstep s (.dialFail now false)).1.enabled = false ∧ (tstep s (.dialFail now false)).2 = .stsFallback :=
+  Proofs.StsTime.expired_fallback_drops s now he hx
+
+/-- Aborted acknowledgements (no port / unusable port on plaintext, no duration on TLS) retain nothing: port, duration
+    and both clock readings are exactly what they were. -/
+theorem abort_not_retained (s : TSts) (now : Int) :
+    tstep s (.ackPlain now none) = (s, .abort) ∧ tstep s (.ackTls now none) = (s, .abort) ∧
+    ∀ p, portUsable p = false → tstep s (.ackPlain now (some p)) = (s, .abort) :=
+  Proofs.StsTime.abort_not_retained s now
+
+/-- The first upgrade has no lifetime yet: the redial at the clean end does NOT re-base (`goto startConn`), the policy
+    still has the reset duration -1, so a failing TLS dial drops it again when fallback is allowed and keeps it
+    (upgrade error) when `DisableSTSFallback`. -/
+theorem first_upgrade_dial_fails (s : TSts) (p t0 t1 t2 : Int) (hp : portUsable p = true)
+    (hd : s.persistenceDuration = -1) (h : s.received ≤ t2) :
+    let s1 := (tstep s (.ackPlain t0 (some p))).1
+    let s2 := (tstep s1 (.cleanEnd t1))
+    s2.2 = .upgradeRedial ∧ s2.1.received = s.received ∧ (∀ cp ssl, planDial cp ssl s2.1.toSts = (p, true)) ∧
+    (tstep s2.1 (.dialFail t2 false)).2 = .stsFallback ∧ (tstep s2.1 (.dialFail t2 false)).1.enabled = false ∧
+    tstep s2.1 (.dialFail t2 true) = (s2.1, .stsUpgradeFailed) :=
+  Proofs.StsTime.first_upgrade_dial_fails s p t0 t1 t2 hp hd h
+
+/-- `lastFailed` (read only by possibleCapList): it changes only when a failed dial resets the policy; for the five
+    minutes after that the client does not request `sts` at all unless `DisableSTSFallback`. The reset happens for a
+    client WITHOUT any policy too (its reset duration -1 always counts as expired), so with fallback allowed any failed
+    dial suppresses STS negotiation on connections made in the next five minutes. -/
+theorem lastFailed_changes_only_on_drop (s : TSts) (e : TEv) (h : (tstep s e).1.lastFailed ≠ s.lastFailed) :
+    ∃ now, e = .dialFail now false ∧ expiredAt now s = true ∧ (tstep s e).1.lastFailed = some now :=
+  Proofs.StsTime.lastFailed_changes_only_on_drop s e h
+
+theorem stsRequestedAt_possibleCaps (cfg : Cfg) (now : Int) (s : TSts)
+    (h : cfg.stsRecentlyFailed = recentlyFailedAt now s) :
+    AMap.contains (possibleCaps cfg) sSts = true ↔
+      (sSts ∈ AMap.keys cfg.supportedCaps ∨ stsRequestedAt now cfg.disableSTS cfg.ssl cfg.disableSTSFallback s = true) :=
+  Proofs.StsTime.stsRequestedAt_possibleCaps cfg now s h
+
+theorem no_sts_request_after_drop (s : TSts) (t now : Int) (hx : expiredAt t s = true)
+    (h1 : t ≤ now) (h2 : now < t + 300 * 10^9) (dsts ssl : Bool) :
+    stsRequestedAt now dsts ssl false (tstep s (.dialFail t false)).1 = false ∧
+    stsRequestedAt now false false true (tstep s (.dialFail t false)).1 = true :=
+  Proofs.StsTime.no_sts_request_after_drop s t now hx h1 h2 dsts ssl
+
+theorem plain_dial_failure_stamps_lastFailed (s : TSts) (now : Int) (hd : s.persistenceDuration = -1)
+    (he : s.enabled = false) (h : s.received ≤ now) :
+    (tstep s (.dialFail now false)).2 = .plainError ∧ (tstep s (.dialFail now false)).1.lastFailed = some now :=
+  Proofs.StsTime.plain_dial_failure_stamps_lastFailed s now hd he h
+
+/-! ### Non-vacuity and the negative witness -/
+
+/-- A stored policy: port 6697, one hour, received at clock 0. -/
+def demoPolicy : TSts := { upgradePort := 6697, persistenceDuration := 3600, received := 0 }
+
+/-- Times in nanoseconds: the server shortens the policy to 60 s one second into a TLS session that then lasts two
+    hours; dials fail 30 s and 60 s after the clean end (inside the re-based lifetime) and at 100 s (outside, but with
+    fallback disabled); a new session (duration 300 s at 7400 s) ends with an ERROR at 7500 s — no re-basing — and a dial
+    fails at 7650 s, inside the lifetime based at 7400 s. -/
+def demoHistory : List TEv :=
+  [.ackTls 1000000000 (some 60), .cleanEnd 7200000000000, .dialFail 7230000000000 false, .dialFail 7260000000000 false,
+   .dialFail 7300000000000 true, .ackTls 7400000000000 (some 300), .ackTls 7401000000000 none, .errorEnd 7500000000000,
+   .dialFail 7650000000000 false]
+
+example : demoPolicy.enabled = true ∧ demoPolicy.beginUpgrade = false ∧
+    lifetimeOk demoPolicy.received demoPolicy.persistenceDuration demoHistory = true ∧ demoHistory.length = 9 := by decide
+example : (ttrace demoPolicy demoHistory).map (·.2.2) =
+    [.nothing, .nothing, .stsUpgradeFailed, .stsUpgradeFailed, .stsUpgradeFailed, .nothing, .abort, .nothing, .stsUpgradeFailed] := by
+  decide
+/-- The predicate is not trivially true: one second later the second dial is outside the 60 s lifetime; and the very same
+    dial IS dropped by the model (so the hypothesis of `never_downgraded` is needed). -/
+example : lifetimeOk 0 3600 [.ackTls 1000000000 (some 60), .cleanEnd 7200000000000, .dialFail 7261000000000 false] = false := by
+  decide
+example : (trun demoPolicy [.ackTls 1000000000 (some 60), .cleanEnd 7200000000000, .dialFail 7261000000000 false]).enabled = false := by
+  decide
+
+/-- NEGATIVE witness — why the re-basing at the clean end matters. Without it (`tstepNoRebase`: `cleanEnd` leaves
+    `received` alone) a TLS session that outlasts the duration (60 s policy, two-hour session), ended cleanly, followed
+    by ONE failing dial ten seconds later drops the policy and the next dial is plaintext on the configured port;
+    with the re-basing (the code as it is) the same history keeps it. -/
+def longSession : List TEv := [.ackTls 1000000000 (some 60), .cleanEnd 7200000000000, .dialFail 7210000000000 false]
+
+example : (trunG false demoPolicy longSession).enabled = false ∧
+    planDial 6667 false (trunG false demoPolicy longSession).toSts = (6667, false) ∧
+    (ttraceG false demoPolicy longSession).map (·.2.2) = [.nothing, .nothing, .stsFallback] := by decide
+example : (trun demoPolicy longSession).enabled = true ∧
+    planDial 6667 false (trun demoPolicy longSession).toSts = (6697, true) ∧
+    (ttrace demoPolicy longSession).map (·.2.2) = [.nothing, .nothing, .stsUpgradeFailed] := by decide
 
 end Girc.Props.C10
